@@ -141,6 +141,19 @@ func TestC09(t *testing.T) {
 	vlib.Rapid(h, "token-soup", h.N(10000, 500000), func(t *rapid.T) string {
 		return rapid.SampledFrom(vlib.Prefixes).Draw(t, "prefix") + vlib.GenTokenSoup(t, 14)
 	}, c09Single)
+	vlib.Rapid(h, "model-docs-with-faults", h.N(8000, 300000), func(t *rapid.T) docCase {
+		doc := vlib.GenDoc(t, vlib.GenOpts{Macros: rapid.Bool().Draw(t, "macros")})
+		if rapid.Bool().Draw(t, "bodyFault") {
+			if d2, ok := vlib.InjectBodyFault(t, doc); ok {
+				doc = d2
+			}
+		} else {
+			doc = injectAnyFault(t, doc)
+		}
+		return docCase{Doc: doc}
+	}, func(c docCase, info *vlib.Info) *vlib.Failure {
+		return c09Project(vlib.Single(vlib.Render(c.Doc, c.Style).Text), info, nil)
+	})
 	vlib.Rapid(h, "model-docs", h.N(8000, 400000), func(t *rapid.T) docCase {
 		doc := vlib.GenDoc(t, vlib.GenOpts{Macros: rapid.Bool().Draw(t, "macros"), TopPasteAnywhere: true})
 		return docCase{Doc: doc, Style: genStyle(t, !doc.HasMultilineFreeText())}
